@@ -677,6 +677,9 @@ def _calc_view_revisions(
     br_rev_id = branch.last_revision()
     if br_rev_id == _mod_revision.NULL_REVISION:
         return []
+    if start_rev_id is not None and end_rev_id is None:
+        # A range without an upper limit ends at the tip.
+        end_rev_id = br_rev_id
 
     if (
         end_rev_id
